@@ -517,6 +517,36 @@ def rule_conv(ctx, R):
         if got != ref:
             R.finding(ROLE_L2R, "lua->resp:%s:%s" % (cell, "+".join(sorted(got)) or "nothing"),
                       "a Lua %s is converted to RESP %s; the standard conversion gives %s" % (cell, "/".join(sorted(got)) or "nothing", "/".join(sorted(ref))), b.loc(tb))
+        if cell == "Table":
+            # the standard conversion takes t[1], t[2], ... up to the first nil
+            seq = [y for y in reg if b.term(y)["k"] == "call" and re.search(r"^mlua::Table::(sequence_values|raw_sequence_values)(::<.*>)?$", b.term(y)["f"] or "")]
+            gets = [y for y in reg if b.term(y)["k"] == "call" and re.search(r"^mlua::Table::(get|raw_get)(::<.*>)?$", b.term(y)["f"] or "")]
+            loops = cfg.loops(b)
+            stops = None
+            if seq:
+                stops = True
+            elif gets:
+                stops = False
+                heads = [h for h, body in loops.items() if any(g in body for g in gets)]
+                for y in reg:
+                    t = b.term(y)
+                    if t["k"] != "switch" or op_is_const(t["d"]):
+                        continue
+                    dl = op_local(t["d"])
+                    for st in b.stmts(y):
+                        if st["k"] == "=" and st["l"]["l"] == dl and st["r"]["k"] == "discr":
+                            pl = st["r"]["p"]
+                            ty = b.locals[pl["l"]]
+                            inner = any(isinstance(e, dict) and "f" in e for e in pl["p"])
+                            is_val = bool(re.match(r"^mlua::(value::)?Value$", ty)) or (inner and "mlua::Value" in ty.replace("value::", ""))
+                            if is_val and pl["l"] > b.nargs:
+                                nil_t = dict(t["ts"]).get(0)
+                                if nil_t is not None and heads and all(h not in cfg.fwd(b, [nil_t]) for h in heads):
+                                    stops = True
+            R.inst(ROLE_L2R, "lua->resp:Table:first-nil", {"sequence_iterator": bool(seq), "indexed_gets": len(gets), "loop_left_on_nil": stops})
+            if stops is False:
+                R.finding(ROLE_L2R, "lua->resp:Table:continues-past-nil",
+                          "the table -> array conversion fetches elements by index (line %d) without leaving its loop at the first nil element: a table with a hole (`{1, nil, 3}`) yields a nil element and the elements behind it, where the standard conversion ends the array at the first nil" % b.bb_line(gets[0]), b.loc(gets[0]))
     R.floor("lua_to_resp_cells", m)
 
 
